@@ -119,9 +119,9 @@ def _np():
 
 TEMPLATES = {
     "R": {"params": {"R": (1.0, 1e4)}, "good": "R",
-          "bad": {"re": "2*R", "im": "R + 1/(2*pi*f*I)", "both": "R*(1+I)"},
+          "bad": {"re": "2*R", "im": "R + 1/(2*pi*f*I)", "both": "R*(2+I)"},
           "num": lambda f, R: R + 0j * f,
-          "badnum": {"re": lambda f, R: 2 * R + 0j * f, "im": lambda f, R: R + 1 / (2j * math.pi * f), "both": lambda f, R: R * (1 + 1j) + 0j * f}},
+          "badnum": {"re": lambda f, R: 2 * R + 0j * f, "im": lambda f, R: R + 1 / (2j * math.pi * f), "both": lambda f, R: R * (2 + 1j) + 0j * f}},
     "C": {"params": {"C": (1e-7, 1e-3)}, "good": "1/(2*pi*f*C*I)",
           "bad": {"re": "1/(2*pi*f*C*I) + 5", "im": "1/(pi*f*C*I)", "both": "1/(2*pi*f*C)"},
           "num": lambda f, C: 1 / (2j * math.pi * f * C),
@@ -145,9 +145,9 @@ TEMPLATES = {
              "num": lambda f, R: R + 0j * f,
              "badnum": {"re": lambda f, R: 3 * R + 0j * f, "im": lambda f, R: R + 1j + 0j * f, "both": lambda f, R: R * (2 + 1j) + 0j * f}},
     # container with one sub-circuit X (default: a 20 ohm resistor)
-    "cont": {"params": {"R": (1.0, 1e4)}, "good": "R + X", "bad": {"re": "2*R + X", "im": "R + X + 4*I", "both": "R*(1+I) + X"},
+    "cont": {"params": {"R": (1.0, 1e4)}, "good": "R + X", "bad": {"re": "2*R + X", "im": "R + X + 4*I", "both": "R*(2+I) + X"},
              "num": lambda f, R: R + 20.0 + 0j * f,
-             "badnum": {"re": lambda f, R: 2 * R + 20.0 + 0j * f, "im": lambda f, R: R + 20.0 + 4j + 0j * f, "both": lambda f, R: R * (1 + 1j) + 20.0 + 0j * f}},
+             "badnum": {"re": lambda f, R: 2 * R + 20.0 + 0j * f, "im": lambda f, R: R + 20.0 + 4j + 0j * f, "both": lambda f, R: R * (2 + 1j) + 20.0 + 0j * f}},
 }
 
 
@@ -548,6 +548,7 @@ class Executor:
         as on a fresh import. Returns (violations, clean)."""
         viol = []
         self.count("barrier")
+        public_dirty = any(H.m.D[t] != d0 for t, d0 in H.m.D0.items() if not self.binfo[t[2:]]["private"])
         try:
             self.reg.reset()
         except Exception as e:
@@ -555,7 +556,7 @@ class Executor:
         diff = self.snapshot_diff(self.full_snapshot())
         self.count("snapshot-compare")
         if diff:
-            viol.append(H.mk(_fresh_key(diff, self), "after reset() the library differs from its freshly imported state in: %s" % _diff_text(diff, self), step=None,
+            viol.append(H.mk(_fresh_key(diff, self, public_dirty), "after reset() the library differs from its freshly imported state in: %s" % _diff_text(diff, self), step=None,
                              extra={"barrier": True}))
             return viol, False
         # a subsequent registration behaves as on a fresh import: every symbol the history used is free again and public
@@ -578,7 +579,7 @@ class Executor:
                                  extra={"barrier": True, "symbol": s}))
             elif pub.get(s) is not cls:
                 key = "C15/reset-keeps-private-flag" if s in H.ever_private else "C15/view-hidden:postreset-registration"
-                viol.append(H.mk(key, "after reset() a freshly registered PUBLIC element %r is hidden from get_elements() (it was registered private=True before the reset)" % s,
+                viol.append(H.mk(key, "after reset() a freshly registered PUBLIC element %r is hidden from get_elements()%s" % (s, " (the symbol was registered with private=True before the reset)" if s in H.ever_private else ""),
                                  step=None, extra={"barrier": True, "symbol": s}))
             if s in self.get_elements(default_only=True, private=True):
                 viol.append(H.mk("C15/view-extra:postreset-registration", "user element %r listed among the default elements" % s, step=None, extra={"barrier": True}))
@@ -607,12 +608,12 @@ def _diff_text(diff, ex, snap=None):
     return ", ".join(diff[:8]) + (" ..." if len(diff) > 8 else "")
 
 
-def _fresh_key(diff, ex):
+def _fresh_key(diff, ex, public_dirty=False):
     cdiff = [d for d in diff if d.startswith("class/")]
     kinds = sorted({d.split("/")[2] if d.startswith("class/") else d.split("/")[0] for d in diff})
     if cdiff and all(d.split("/")[2] in ("defaults", "instance") for d in cdiff) and all(d.startswith(("class/", "probe/")) for d in diff):
         priv = {s for s, i in ex.binfo.items() if i["private"]}
-        if {d.split("/")[1] for d in cdiff} <= priv:
+        if public_dirty and {d.split("/")[1] for d in cdiff} <= priv:  # changed public built-ins came back, private ones did not
             return "C15/reset-skips-private-builtin-defaults"
         return "C15/not-fresh-after-reset:defaults"
     return "C15/not-fresh-after-reset:" + "+".join(kinds)
@@ -715,6 +716,7 @@ class _History:
             else:
                 key = "C15/duplicate-symbol-accepted:" + dup_kind
             self.bad(key, "register_element accepted a definition that must be refused (symbol %r, equation %r, variant %s)" % (op["symbol"], definition.equation, op["variant"]), step)
+        self.ex.count("register-cell:%s:%s:private=%s:%s" % (variant, op["tmpl"], op["private"], "accepted" if out == "ok" else "refused"))
         if expected:
             self.nontrivial = True
             if op["private"] is True:
@@ -752,6 +754,7 @@ class _History:
 
     def do_reset(self, step, op):
         self.m.reset(op["elements"], op["default_parameters"])
+        self.ex.count("reset-cell:elements=%d:default_parameters=%d" % (op["elements"], op["default_parameters"]))
         if op["elements"]:
             self.reset_since_private |= self.ever_private
         if op["form"] == "default":
@@ -898,6 +901,7 @@ class _History:
         if self.viol:
             return
         # 2. class defaults: built-ins follow the model (original values unless set_default_values changed them), limits never change
+        mism = []  # (token, observed, expected, stale)
         for tok, want in m.D.items():
             c = self.cls.get(tok)
             if c is None:
@@ -906,18 +910,19 @@ class _History:
             ex.count("defaults-compare")
             if set(got) != set(want) or any(not _same(got[k], want[k]) for k in want):
                 if tok in m.D0:
-                    stale = all(_same(got.get(k), before_D[tok].get(k)) for k in want)
-                    priv = ex.binfo[tok[2:]]["private"]
-                    full_reset = (op["op"] == "reset" and op["default_parameters"]) or (op["op"] == "reset_defaults" and op.get("toks") is None and op["form"] == "none")
-                    if stale and priv and full_reset:
-                        key = "C15/reset-skips-private-builtin-defaults"
-                    else:
-                        key = "C15/defaults-mismatch:" + ctx
-                    self.bad(key, "default values of built-in %s are %s, expected %s" % (tok[2:], got, want), step)
+                    mism.append((tok, got, want, all(_same(got.get(k), before_D[tok].get(k)) for k in want)))
                 elif ctx in ("reset", "reset_defaults"):
                     m.D[tok] = dict(got)  # statement is silent about user-class defaults under reset: accept and follow
                 else:
                     self.bad("C15/user-defaults-mismatch:" + ctx, "default values of user class %s are %s, expected %s" % (tok, got, want), step)
+        if mism:
+            full_reset = (op["op"] == "reset" and op["default_parameters"]) or (op["op"] == "reset_defaults" and op.get("toks") is None and op["form"] == "none")
+            public_restored = any(before_D[t] != d0 and t not in [x[0] for x in mism] for t, d0 in m.D0.items() if not ex.binfo[t[2:]]["private"])
+            only_private_stale = all(ex.binfo[t[2:]]["private"] and stale for t, _, _, stale in mism)
+            # narrow mechanism: a full reset restored changed public built-ins but left the private ones (K, Ky) as they were
+            key = "C15/reset-skips-private-builtin-defaults" if (full_reset and only_private_stale and public_restored) else "C15/defaults-mismatch:" + ctx
+            for tok, got, want, stale in mism:
+                self.bad(key, "default values of built-in %s are %s, expected %s%s" % (tok[2:], got, want, " (unchanged by this operation)" if stale else ""), step)
         for s, c in ex.fresh_classes.items():
             i = ex.binfo[s]
             if ({k: float(v) for k, v in c.get_default_lower_limits().items()} != i["lower"] or {k: float(v) for k, v in c.get_default_upper_limits().items()} != i["upper"]
